@@ -42,42 +42,113 @@ func classifyTable(fn *ssa.Function) (map[int64]classRow, bool) {
 			return false
 		}
 		ia, ok := ld.X.(*ssa.IndexAddr)
-		if !ok || strip(ia.X) != ssa.Value(data) {
+		if !ok || strip(ia.X) != strip(data) {
 			return false
 		}
 		k, ok := constInt(ia.Index)
 		return ok && k == 0
 	}
+	// candidate tag values: every constant the tag is compared with
+	cands := map[int64]bool{}
 	for _, in := range instrsOf(fn) {
-		r, ok := in.(*ssa.Return)
-		if !ok || len(r.Results) != 3 {
-			continue
-		}
-		res := retResults(r)
-		if k, isK := res[2].(*ssa.Const); !isK || k.Value != nil {
-			continue
-		}
-		round, ok1 := constInt(res[0])
-		bk, ok2 := res[1].(*ssa.Const)
-		if !ok1 || !ok2 || bk.Value == nil {
-			return nil, false
-		}
-		var tag *int64
-		for _, f := range FactsAt(r) {
-			if f.Op == token.EQL && isTag(f.X) {
-				if k, ok := constInt(f.Y); ok {
-					kk := k
-					tag = &kk
+		if bo, ok := in.(*ssa.BinOp); ok && (bo.Op == token.EQL || bo.Op == token.NEQ) {
+			for _, pr := range [][2]ssa.Value{{bo.X, bo.Y}, {bo.Y, bo.X}} {
+				if k, ok := constInt(pr[1]); ok && isTag(pr[0]) {
+					cands[k] = true
 				}
 			}
 		}
-		if tag == nil {
+	}
+	// evaluate the function's control flow for each tag value (switch, if-chain and || forms alike):
+	// branches on the tag are decided, any other branch is explored both ways; the successful returns
+	// reached must agree on (round, class)
+	evalCond := func(v ssa.Value, k int64) (bool, bool) {
+		neg := false
+		for {
+			if u, ok := v.(*ssa.UnOp); ok && u.Op == token.NOT {
+				v, neg = u.X, !neg
+				continue
+			}
+			break
+		}
+		bo, ok := v.(*ssa.BinOp)
+		if !ok || (bo.Op != token.EQL && bo.Op != token.NEQ) {
+			return false, false
+		}
+		for _, pr := range [][2]ssa.Value{{bo.X, bo.Y}, {bo.Y, bo.X}} {
+			if c, ok := constInt(pr[1]); ok && isTag(pr[0]) {
+				val := (c == k) == (bo.Op == token.EQL)
+				return val != neg, true
+			}
+		}
+		return false, false
+	}
+	for k := range cands {
+		var rows []classRow
+		bad := false
+		seen := map[*ssa.BasicBlock]bool{}
+		var walk func(b *ssa.BasicBlock)
+		walk = func(b *ssa.BasicBlock) {
+			if seen[b] || b == fn.Recover {
+				return
+			}
+			seen[b] = true
+			last := b.Instrs[len(b.Instrs)-1]
+			switch t := last.(type) {
+			case *ssa.Return:
+				if len(t.Results) != 3 {
+					bad = true
+					return
+				}
+				res := retResults(t)
+				if !isNilConst(res[2]) {
+					return // error return
+				}
+				bk, ok2 := res[1].(*ssa.Const)
+				if !ok2 || bk.Value == nil {
+					bad = true
+					return
+				}
+				round, ok1 := constInt(res[0])
+				if !ok1 {
+					if isTag(res[0]) {
+						round = k // the round is the tag itself
+					} else {
+						bad = true
+						return
+					}
+				}
+				rows = append(rows, classRow{round: round, bcast: bk.Value.String() == "true", pos: t.Pos()})
+			case *ssa.If:
+				if val, known := evalCond(t.Cond, k); known {
+					if val {
+						walk(b.Succs[0])
+					} else {
+						walk(b.Succs[1])
+					}
+					return
+				}
+				walk(b.Succs[0])
+				walk(b.Succs[1])
+			default:
+				for _, s := range b.Succs {
+					walk(s)
+				}
+			}
+		}
+		walk(fn.Blocks[0])
+		if bad {
 			return nil, false
 		}
-		if _, dup := out[*tag]; dup {
-			return nil, false
+		if len(rows) == 0 {
+			continue // this value is rejected
 		}
-		out[*tag] = classRow{round: round, bcast: bk.Value.String() == "true", pos: r.Pos()}
+		for _, r := range rows[1:] {
+			if r.round != rows[0].round || r.bcast != rows[0].bcast {
+				return nil, false
+			}
+		}
+		out[k] = rows[0]
 	}
 	return out, len(out) > 0
 }
@@ -89,7 +160,7 @@ func encodeWritesTag(fn *ssa.Function) bool {
 	}
 	for _, in := range instrsOf(fn) {
 		st, ok := in.(*ssa.Store)
-		if !ok || strip(st.Val) != ssa.Value(fn.Params[0]) {
+		if !ok || strip(st.Val) != strip(fn.Params[0]) {
 			continue
 		}
 		ia, ok := st.Addr.(*ssa.IndexAddr)
@@ -204,10 +275,10 @@ func checkC04(c *Ctx) {
 		return
 	}
 	n := 0
-	for _, in := range instrsOf(r.receive) {
+	for _, in := range instrsDeep(r.receive) {
 		ci, ok := in.(ssa.CallInstruction)
-		if !ok {
-			continue
+		if !ok || isHelperCall(in) != nil {
+			continue // a transparent helper's body is part of this listing
 		}
 		cal := staticCallee(ci.Common())
 		if cal == nil || !r.reachesSink(cal, map[*ssa.Function]bool{}) {
@@ -363,9 +434,9 @@ func ruleC04Callbacks(c *Ctx) {
 		return
 	}
 	nP := 0
-	for _, in := range instrsOf(r.receive) {
+	for _, in := range instrsDeep(r.receive) {
 		ci, ok := in.(ssa.CallInstruction)
-		if !ok {
+		if !ok || isHelperCall(in) != nil {
 			continue
 		}
 		cal := staticCallee(ci.Common())
@@ -382,7 +453,7 @@ func ruleC04Callbacks(c *Ctx) {
 		}
 		nP++
 		acked := false
-		for _, a := range callsOfFuncField([]*ssa.Function{r.receive}, r.fAck) {
+		for _, a := range callsOfFuncField(deepFuncs(r.receive), r.fAck) {
 			if instrDominates(a.(ssa.Instruction), in) {
 				acked = true
 			}
